@@ -4,6 +4,12 @@ from .common import Report, VERIF
 from .facts import extract, FactError, REPO, FLAVOURS, extra_flavours, stable_lints, toolchain_skew, build_time_inputs
 from .extract import Ctx
 from .mirtab import Undecided
+import signal
+
+
+class BudgetExceeded(BaseException):
+    """Raised by the wall-clock budget; deliberately not an Exception so that no `except Undecided` / `except Exception` inside the
+    engine swallows it."""
 from . import rules_scancode as RS
 from . import rules_ps2 as RP
 from . import rules_event as RE
@@ -337,7 +343,21 @@ def run(prop, tier):
                 rep.finding('BUILD-ENV compile-time dependence on %s' % ','.join(sorted(set(probes))),
                             'the crate reads build-time environment variable(s) %s (env!/option_env!): what is compiled depends on the '
                             'environment of the build, so a verdict about this compilation does not carry over to other builds; fails closed' % sorted(probes))
-            fn(ctx, rep, tier)
+            # wall-clock budget per flavour: an analysis that does not terminate in reasonable time (a state space the rules were not
+            # written for, e.g. a decoder that caches whole (key, modifiers, result) triples) fails closed instead of hanging
+            budget = int(os.environ.get('PKV_BUDGET_S') or (900 if tier == 'quick' else 6 * 3600))
+            def _over(signum, frame):
+                signal.setitimer(signal.ITIMER_REAL, 5)     # re-arm in case the exception is swallowed somewhere
+                raise BudgetExceeded()
+            old_h = signal.signal(signal.SIGALRM, _over)
+            signal.setitimer(signal.ITIMER_REAL, budget)
+            try:
+                fn(ctx, rep, tier)
+            finally:
+                signal.setitimer(signal.ITIMER_REAL, 0)
+                signal.signal(signal.SIGALRM, old_h)
+        except BudgetExceeded:
+            rep.undecided('analysis budget of %d s exceeded: the state space of this tree is beyond what the rule explores; fails closed [%s MIR]' % (budget, fl))
         except Undecided as e:
             rep.undecided('%s [%s MIR]' % (e, fl))
         except Exception as e:   # analyser bug: fail closed, loudly
